@@ -220,5 +220,6 @@ def r3(ctx):
     for short in ("__main__", "tree", "coverage.__main__"):
         m = repo.mod(short)
         regs = [c for fn in m.functions.values() for c in fn.calls() if isinstance(c.func, ast.Attribute) and c.func.attr == "add_argument" and any(isinstance(a, ast.Constant) and a.value in ("-x", "--exclude") for a in c.args)]
+        regs = list({id(c): c for c in regs}.values())  # a call inside an extracted helper is seen from the helper and from its caller
         ctx.check(len(regs) == 1, f"{short}:-x:registered-once", f"-x/--exclude is registered {len(regs)} times in {short}: on nested parsers the inner default replaces the patterns collected by the outer one", f"codebasin/{short.replace('.', '/')}.py")
     ctx.floor(5)
